@@ -737,6 +737,15 @@ Section TableProofs.
     pose proof (ti_log _ H1). pose proof (shift_nonneg (bcount t)). lia.
   Qed.
 
+  Lemma reserve_log_ge : forall fuel z n nl, reserve_log calcCapacity fuel z n = Some nl -> z <= nl.
+  Proof.
+    induction fuel; simpl; intros z n nl E.
+    - destruct (n <=? calcCapacity (2 ^ z)); inversion E; lia.
+    - destruct (n <=? calcCapacity (2 ^ z)); [inversion E; lia|]. apply IHfuel in E. lia.
+  Qed.
+
+  Arguments HashModel.reserve_log : simpl never.
+
   Lemma hadd_spec s k v bud s' : Inv s -> ~ In k (K (hall s)) -> hadd s (k, v) bud = Some s' ->
     Inv s' /\ Permutation (hall s') ((k, v) :: hall s).
   Proof.
@@ -752,13 +761,13 @@ Section TableProofs.
       destruct (tadd_inv t (k, v) t' It Hnt E) as [It' [L P]].
       apply inv_relocated; auto; [discriminate|].
       unfold hall. rewrite Eg, !gall_cons. rewrite P. reflexivity.
-    - destruct ((calcCapacity (2 ^ newLog (gens s)) <=? count s) || (maxLog <? newLog (gens s))) eqn:Ck; [discriminate|].
-      apply orb_false_iff in Ck. destruct Ck as [_ Ck]. apply Z.ltb_ge in Ck.
-      pose proof (newLog_nonneg _ (inv_t _ I)) as Hn0.
-      destruct (tadd (newTable (newLog (gens s))) (k, v)) as [t'|] eqn:E; [|discriminate].
+    - destruct (reserve_log calcCapacity 64 (newLog (gens s)) (count s + 1)) as [nl|] eqn:El; [|discriminate].
+      destruct (maxLog <? nl) eqn:Ck; [discriminate|]. apply Z.ltb_ge in Ck.
+      pose proof (newLog_nonneg _ (inv_t _ I)) as Hn0. pose proof (reserve_log_ge _ _ _ _ El) as Hge.
+      destruct (tadd (newTable nl) (k, v)) as [t'|] eqn:E; [|discriminate].
       intros H; injection H as H; subst s'.
-      assert (It0 : TInv (newTable (newLog (gens s)))) by (apply newTable_inv; lia).
-      assert (Hnt : ~ In (fst (k, v)) (map fst (tall (newTable (newLog (gens s)))))) by (rewrite tall_newTable; simpl; tauto).
+      assert (It0 : TInv (newTable nl)) by (apply newTable_inv; lia).
+      assert (Hnt : ~ In (fst (k, v)) (map fst (tall (newTable nl)))) by (rewrite tall_newTable; simpl; tauto).
       destruct (tadd_inv _ (k, v) t' It0 Hnt E) as [It' [L P]]. rewrite tall_newTable in P.
       apply inv_relocated; auto; [constructor; [exact It'|apply I]|discriminate|].
       rewrite gall_cons. rewrite P. reflexivity.
@@ -787,11 +796,7 @@ Section TableProofs.
     - destruct (reserve_log calcCapacity 64 (newLog (gens s)) n) as [nl|] eqn:E; [|discriminate].
       destruct (maxLog <? nl) eqn:Ck; [discriminate|]. apply Z.ltb_ge in Ck.
       intros H; injection H as H; subst s'.
-      assert (Hn0 : 0 <= nl).
-      { pose proof (newLog_nonneg _ (inv_t _ I)) as Hn0. revert E Hn0. generalize (newLog (gens s)). generalize 64%nat.
-        induction n0; simpl; intros z E Hz.
-        - destruct (n <=? calcCapacity (2 ^ z)); inversion E; subst; auto.
-        - destruct (n <=? calcCapacity (2 ^ z)); [inversion E; subst; auto|]. apply (IHn0 _ E). lia. }
+      assert (Hn0 : 0 <= nl) by (pose proof (newLog_nonneg _ (inv_t _ I)); pose proof (reserve_log_ge _ _ _ _ E); lia).
       apply inv_relocated.
       + constructor; [apply newTable_inv; lia|apply I].
       + discriminate.
@@ -1222,6 +1227,25 @@ Section TableProofs.
         destruct (wspec_run m1 os xs) as [m' ys]. simpl in *. destruct IH. split; auto.
   Qed.
 
+  Theorem wrun_trace : forall os w m, WR w m ->
+    exists m', wtrace m os (snd (wrun w os)) m' /\ WR (fst (wrun w os)) m'.
+  Proof.
+    induction os as [|o os IH]; intros w m HR; simpl.
+    - exists m. split; [constructor|exact HR].
+    - destruct (wstep w o) as [w1 x] eqn:E.
+      destruct (wstep_refines _ _ _ _ _ HR E) as [[Ex Hw]|[HR1 Ho]].
+      + subst x. destruct Hw as [Hw|[m1 [HR1 [Eo [HP He]]]]].
+        * subst w1. destruct (IH w m HR) as [m' [T W]]. destruct (wrun w os) as [w2 xs]. simpl in *.
+          exists m'. split; auto. apply wt_exn. exact T.
+        * subst o. destruct (IH w1 m1 HR1) as [m' [T W]]. destruct (wrun w1 os) as [w2 xs]. simpl in *.
+          exists m'. split; auto. destruct m as [[ma mb] e]. destruct m1 as [[ma1 mb1] e1]. simpl in *. subst e1.
+          destruct HR1 as [Ra1 [Rb1 _]].
+          apply wt_merge_exn with (ma' := ma1) (mb' := mb1); auto; eapply R_nodup; eauto.
+      + destruct (wspec_step m o) as [m1 y] eqn:Esp. simpl in *.
+        destruct (IH w1 m1 HR1) as [m' [T W]]. destruct (wrun w1 os) as [w2 xs]. simpl in *.
+        exists m'. split; auto. eapply wt_ok; eauto.
+  Qed.
+
   (* ================= "Hash table is full" is unreachable ================= *)
   Hypothesis probe_cover : forall hc log b, 0 <= log <= maxLog -> 0 <= b < 2 ^ log ->
     exists p : nat, Z.of_nat p < 2 ^ log /\ path hc (2 ^ log) p = b.
@@ -1292,14 +1316,13 @@ Section TableProofs.
   Qed.
 
   (* pvAddGrow: the fresh table always accepts the item; only MOMO_CHECK(newCapacity > mCount) / length_error remain *)
-  Theorem hadd_grow_ok s kv bud : Inv s -> ~ (count s < capacity s) ->
-    count s < calcCapacity (2 ^ newLog (gens s)) -> newLog (gens s) <= maxLog -> exists s', hadd s kv bud = Some s'.
+  Theorem hadd_grow_ok s kv bud nl : Inv s -> ~ (count s < capacity s) ->
+    reserve_log calcCapacity 64 (newLog (gens s)) (count s + 1) = Some nl -> nl <= maxLog -> exists s', hadd s kv bud = Some s'.
   Proof.
     intros I Hc H1 H2. unfold HashModel.hadd. destruct (Z.ltb_spec (count s) (capacity s)); [lia|].
-    destruct (Z.leb_spec (calcCapacity (2 ^ newLog (gens s))) (count s)); [lia|].
-    destruct (Z.ltb_spec maxLog (newLog (gens s))); [lia|]. simpl.
-    pose proof (newLog_nonneg _ (inv_t _ I)) as Hn0.
-    assert (It0 : TInv (newTable (newLog (gens s)))) by (apply newTable_inv; lia).
+    rewrite H1. destruct (Z.ltb_spec maxLog nl); [lia|].
+    pose proof (newLog_nonneg _ (inv_t _ I)) as Hn0. pose proof (reserve_log_ge _ _ _ _ H1) as Hge.
+    assert (It0 : TInv (newTable nl)) by (apply newTable_inv; lia).
     destruct (tadd_some _ kv It0) as [t' E]; [|rewrite E; eauto].
     exists 0. split; [apply (conj (Z.le_refl 0)); apply bcount_pos; simpl; lia|].
     unfold HashModel.getb, HashModel.newTable. simpl. rewrite nth_repeat.
@@ -1376,13 +1399,13 @@ Section TableProofs.
       apply capok_relocated; auto.
       + eapply NoDup_keys_perm; [|exact NDl]. unfold hall. rewrite Eg, !gall_cons. rewrite P. reflexivity.
       + unfold CapOK in C. rewrite Eg in C. rewrite (bcount_log _ _ L). exact C.
-    - destruct ((calcCapacity (2 ^ newLog (gens s)) <=? count s) || (maxLog <? newLog (gens s))) eqn:Ck; [discriminate|].
-      apply orb_false_iff in Ck. destruct Ck as [_ Ck]. apply Z.ltb_ge in Ck.
-      pose proof (newLog_nonneg _ (inv_t _ I)) as Hn0.
-      destruct (tadd (newTable (newLog (gens s))) (k, v)) as [t'|] eqn:E; [|discriminate].
+    - destruct (reserve_log calcCapacity 64 (newLog (gens s)) (count s + 1)) as [nl|] eqn:El; [|discriminate].
+      destruct (maxLog <? nl) eqn:Ck; [discriminate|]. apply Z.ltb_ge in Ck.
+      pose proof (newLog_nonneg _ (inv_t _ I)) as Hn0. pose proof (reserve_log_ge _ _ _ _ El) as Hge.
+      destruct (tadd (newTable nl) (k, v)) as [t'|] eqn:E; [|discriminate].
       intros H; injection H as H; subst s'.
-      assert (It0 : TInv (newTable (newLog (gens s)))) by (apply newTable_inv; lia).
-      assert (Hnt : ~ In (fst (k, v)) (map fst (tall (newTable (newLog (gens s)))))) by (rewrite tall_newTable; simpl; tauto).
+      assert (It0 : TInv (newTable nl)) by (apply newTable_inv; lia).
+      assert (Hnt : ~ In (fst (k, v)) (map fst (tall (newTable nl)))) by (rewrite tall_newTable; simpl; tauto).
       destruct (tadd_inv _ (k, v) t' It0 Hnt E) as [It' [L P]]. rewrite tall_newTable in P.
       apply capok_relocated.
       + constructor; [exact It'|apply I].
@@ -1408,11 +1431,7 @@ Section TableProofs.
       destruct (reserve_log calcCapacity 64 (newLog (gens s)) n) as [nl|] eqn:El; [|discriminate].
       destruct (maxLog <? nl) eqn:Ck; [discriminate|]. apply Z.ltb_ge in Ck.
       intros H; injection H as H; subst s1.
-      assert (Hn0 : 0 <= nl).
-      { pose proof (newLog_nonneg _ (inv_t _ I)) as Hn0. revert El Hn0. generalize (newLog (gens s)). generalize 64%nat.
-        induction n0; simpl; intros z E Hz.
-        - destruct (n <=? calcCapacity (2 ^ z)); inversion E; subst; auto.
-        - destruct (n <=? calcCapacity (2 ^ z)); [inversion E; subst; auto|]. apply (IHn0 _ E). lia. }
+      assert (Hn0 : 0 <= nl) by (pose proof (newLog_nonneg _ (inv_t _ I)); pose proof (reserve_log_ge _ _ _ _ El); lia).
       apply capok_relocated.
       + constructor; [apply newTable_inv; lia|apply I].
       + rewrite gall_cons, tall_newTable. apply I.
@@ -1455,20 +1474,21 @@ Section TableProofs.
       + unfold CapOK in C. rewrite Eg in C. rewrite (bcount_log _ _ L). exact C.
   Qed.
 
-  (* an insert of an absent key can only throw in pvAddGrow's MOMO_CHECK(newCapacity > mCount) / length_error:
-     "Hash table is full" is unreachable *)
+  (* an insert of an absent key can only throw from Buckets::Create's length_error (table beyond 2^maxLog buckets; or the
+     size loop runs out of its 64 doublings): "Hash table is full" is unreachable *)
   Theorem insert_never_table_full s k v bud s' : Reach s ->
     step s (OInsert k v bud) = (s', RExn) ->
-    ~ (count s < capacity s) /\ (calcCapacity (2 ^ newLog (gens s)) <= count s \/ maxLog < newLog (gens s)).
+    ~ (count s < capacity s) /\
+    match reserve_log calcCapacity 64 (newLog (gens s)) (count s + 1) with Some nl => maxLog < nl | None => True end.
   Proof.
     intros [I C]. simpl. destruct (hfind s k) as [[[[gi idx] pos] v0]|] eqn:E; [intros H; inversion H|].
     destruct (hadd s (k, v) bud) as [s1|] eqn:Ea; [intros H; inversion H|]. intros _.
     destruct (Z.lt_ge_cases (count s) (capacity s)) as [Hc|Hc].
     - destruct (hadd_nogrow_never_full s (k, v) bud (conj I C) Hc) as [s2 E2]. congruence.
     - split; [lia|].
-      destruct (Z.le_gt_cases (calcCapacity (2 ^ newLog (gens s))) (count s)) as [H1|H1]; auto.
-      destruct (Z.lt_ge_cases maxLog (newLog (gens s))) as [H2|H2]; auto.
-      destruct (hadd_grow_ok s (k, v) bud I) as [s2 E2]; try lia. congruence.
+      destruct (reserve_log calcCapacity 64 (newLog (gens s)) (count s + 1)) as [nl|] eqn:El; auto.
+      destruct (Z.lt_ge_cases maxLog nl) as [H2|H2]; auto.
+      destruct (hadd_grow_ok s (k, v) bud nl I) as [s2 E2]; try lia; auto. congruence.
   Qed.
 
   Theorem reach_init : Reach (hinit B).
@@ -1603,6 +1623,16 @@ Section Packaged.
     { simpl. split; [|split; auto]; (split; [apply hinit_inv|reflexivity]). }
     eapply wrun_refines; eauto.
   Qed.
+
+  (* ALL histories of the pair of containers, interrupted MergeTo included (relation wtrace) *)
+  Theorem world_traces_all_histories : forall os,
+    exists m', wtrace ([], [], None) os (snd (wrun' (winit B) os)) m' /\ WR' (fst (wrun' (winit B) os)) m'.
+  Proof.
+    destruct OK. intros os.
+    assert (HR : WR' (winit B) ([], [], None)).
+    { simpl. split; [|split; auto]; (split; [apply hinit_inv|reflexivity]). }
+    eapply wrun_trace; eauto.
+  Qed.
 End Packaged.
 
 (* "Hash table is full" unreachable: additionally the probe sequence visits every bucket and mCapacity fits the table *)
@@ -1637,6 +1667,6 @@ Section PackagedFull.
 
   Theorem never_table_full : forall s k v bud s', Reach' s -> step' s (OInsert k v bud) = (s', RExn) ->
     ~ (count s < capacity s) /\
-    (calcCapacity (2 ^ newLog B logStart shift (gens s)) <= count s \/ maxLog < newLog B logStart shift (gens s)).
+    match reserve_log calcCapacity 64 (newLog B logStart shift (gens s)) (count s + 1) with Some nl => maxLog < nl | None => True end.
   Proof. destruct OK. intros. eapply insert_never_table_full; eauto. Qed.
 End PackagedFull.
